@@ -85,6 +85,16 @@ def gen(ctx):
                     cmds += [("execute", cmd_execute(1, blk)), ("ping", cmd_ping())]
                     scripts.append("x all - done 0 0")
                     cases.append(mk_case("c20u_%d" % n, cmds, scripts))
+    # text queries around the built-in prefixes: every combination of keyword spelling, spacing, quoting
+    # debris and terminators (a lone backtick, only a semicolon, nothing at all, ...)
+    names = [b"", b"`", b"``", b"```", b"`a", b"a`", b"`a`", b"a", b";", b"`;", b" ", b"\t", b"`;`", b"\xff", b"a b"]
+    for kw in (b"USE ", b"use ", b"USE", b"Use ", b"SELECT @@", b"select @@", b"SELECT @", b"select"):
+        for nm in names:
+            for suf in (b"", b";", b" ;", b"; ", b"\n"):
+                if ctx.quick() and (len(cases) % 3):
+                    pass
+                n += 1
+                cases.append(mk_case("c20q_%d" % n, [("query", cmd_query(kw + nm + suf)), ("ping", cmd_ping())], ["i ok", "q done 0 0"]))
     # fragment ids out of order (small limit)
     for ids in ([0, 1, 2], [0, 2, 3], [5, 5, 6], [255, 0, 1], [255, 1, 2], [0, 1, 1]):
         n += 1
